@@ -50,7 +50,8 @@ impl Core {
     fn fault(&mut self) -> io::Result<()> {
         let k = self.ops;
         self.ops += 1;
-        let kind = FAULT_KINDS[self.fail_kind % FAULT_KINDS.len()];
+        // usize::MAX selects Interrupted (only used for single transient faults: a permanent one would make read_exact spin)
+        let kind = if self.fail_kind == usize::MAX { io::ErrorKind::Interrupted } else { FAULT_KINDS[self.fail_kind % FAULT_KINDS.len()] };
         if self.fail_at == Some(k) {
             return Err(io::Error::new(kind, "injected transient fault"));
         }
